@@ -1341,6 +1341,24 @@ package main
 //@   ensures [C05] one_sided_change_is_announced: p.dWant != "" || p.dGiven != "" ==> r != nil && r.Want == p.dWant && r.Given == p.dGiven
 //@   ensures [C05] nothing_to_say: p.dWant == "" && p.dGiven == "" ==> r == nil
 
+// C20 (extension): the small converters every gRPC request and reply goes through. Access modes and default access
+// pairs keep both texts in both directions; the kind of a note and the event of a call survive the trip through their
+// protobuf enumeration for every value the protocol defines.
+//@ func pbAccessModeSerialize(acs *MsgAccessMode) (res *pbx.AccessMode)
+//@   modifies nothing
+//@   ensures [C20] kept: acs != nil ==> res != nil && res.Want == acs.Want && res.Given == acs.Given
+//@   ensures [C20] absent_stays_absent: acs == nil ==> res == nil
+//@ func pbAccessModeDeserialize(acs *pbx.AccessMode) (res *MsgAccessMode)
+//@   modifies nothing
+//@   ensures [C20] kept: acs != nil ==> res != nil && res.Want == acs.Want && res.Given == acs.Given
+//@   ensures [C20] absent_stays_absent: acs == nil ==> res == nil
+//@ func pbDefaultAcsSerialize(defacs *MsgDefaultAcsMode) (res *pbx.DefaultAcsMode)
+//@   modifies nothing
+//@   ensures [C20] kept: defacs != nil ==> res != nil && res.Auth == defacs.Auth && res.Anon == defacs.Anon
+//@   ensures [C20] absent_stays_absent: defacs == nil ==> res == nil
+//@ lemma [C20] note_kind_roundtrip: forall w string :: (w == "kp" || w == "read" || w == "recv" || w == "call") ==> pbInfoNoteWhatDeserialize(pbInfoNoteWhatSerialize(w)) == w
+//@ lemma [C20] call_event_roundtrip: forall e string :: (e == "accept" || e == "answer" || e == "hang-up" || e == "ice-candidate" || e == "invite" || e == "offer" || e == "ringing") ==> pbCallEventDeserialize(pbCallEventSerialize(e)) == e
+
 // C20: a presence notice keeps its actor and its target apart on the wire.
 //@ func pbServPresSerialize(pres *MsgServerPres) (r *pbx.ServerMsg_Pres)
 //@   requires [C20] pres != nil
